@@ -98,7 +98,7 @@ def run(res):
         if True in oks and False in oks:
             nontrivial.add(c["coq"])
     for c in ncases:
-        flat = [o for o in c["ops"] if o != "restart"]
+        flat = [o for o in c["ops"] if o != "restart" and o[0] != "heartbeat"]
         if "restart" in c["ops"] and any(o[3] for o in flat) and any(not o[3] for o in flat):
             nontrivial.add(c["coq_pay"] + c["coq_fee"])
     cov.update({
@@ -106,7 +106,7 @@ def run(res):
         "distinct_nontrivial": len(nontrivial),
         "rule": "bare: random (buckets, interval, limit) x <=14 inserts with gaps at 0, interval-1, interval, "
                 "(nb-1)*interval, nb*interval(+1) and amounts at 0, 1, limit/2(+1), limit, limit+1, 2^64-2, 2^64-1; "
-                "node: add_keysend (payment control) and check_onchain_tx (fee control) under a ManualClock with restarts from the store in between, projected per control; "
+                "node: add_keysend (payment control) and check_onchain_tx (fee control) under a ManualClock with restarts from the store and heartbeats (which prune approvals that ran out; pauses up to 25 h) in between, projected per control; "
                 "handler: SignWithdrawal messages (1-3 wallet inputs of every script kind, honest and lying witness_utxo / previous transactions) through the wire codec and RootHandler, "
                 "the booked fee compared with true inputs minus beneficial outputs; a case is "
                 "non-trivial when it has both an approved and a refused insert (node: and a restart); "
